@@ -45,6 +45,8 @@ CORPUS = [
     ('[vf.subcls.PlainList([1, 2]), vf.subcls.ReprStr("x"), vf.dcls.Plain(1, "y", [2])]', {}),
     ("datetime.datetime(2020, 1, 2, 3, 4, tzinfo=datetime.timezone(datetime.timedelta(hours=1)))", {}),
     ("[[1, 2, 3], ('a', 'b'), {1, 2}, frozenset([3]), {'k': None}]", {'width': 20}),
+    # a struct sequence whose repr cannot be parsed (field names unresolvable)
+    ('time.struct_time((vf.stdvals.BAD,) * 9)', {}),
 ]
 
 
